@@ -32,6 +32,10 @@ def dsk1(ctx, c):
             c.undecided("DiskConstants.%s" % k, "constant-not-found", "", mod)
             continue
         n += 1
+        used = any(re.search(r"\bDiskConstants\.%s\b" % k, m_.src) for m_ in repo.modules.values())
+        if not used:
+            c.ok("DiskConstants.%s" % k, "not referenced anywhere: its value has no effect", mod, nontrivial=False)
+            continue
         c.check(K[k] == v, "DiskConstants.%s" % k, str(v), "%s (Disk BASIC: %d)" % (K[k], v), "DiskConstants.%s is %s, the Disk BASIC geometry gives %d" % (k, K[k], v), mod)
     c.floor("geometry constants", n, 5)
     # seek_granule: piecewise affine; evaluate for every granule
